@@ -378,9 +378,10 @@ RevRelLists(rows) ==
         LET v == rows[i][c] IN
         IF v[1] = "list" /\ Len(v[2]) > 1 /\ (\A k \in 1..Len(v[2]) : v[2][k][1] = "rel")
         THEN <<"list", Reverse(v[2])>> ELSE v]]
-ReadProp == IF Rec[l].kind = "read" THEN "C11" ELSE IF Meta.indexed THEN "C15" ELSE "C11"
+ReadProp == IF Rec[l].kind = "read" THEN "C11" ELSE IF Rec[l].kind = "bread" THEN "C30"
+            ELSE IF Meta.indexed THEN "C15" ELSE "C11"
 TRead ==
-  /\ l <= Len(Rec) /\ Rec[l].ev = "case" /\ Rec[l].kind \in {"read", "idx"}
+  /\ l <= Len(Rec) /\ Rec[l].ev = "case" /\ Rec[l].kind \in {"read", "idx", "bread"}
   /\ LET q == Meta.ast
          E == ResultBag(gr, q)
          v == IF IsRows THEN ReadVerdict(E, Rows, q.ret, BagCols(q)) ELSE "query-failed"
@@ -407,7 +408,7 @@ TRead ==
                   ELSE IF HasParallel(gr) THEN "graph-has-parallel-relationships"
                   ELSE "none"
      IN IF v = "" THEN TRUE
-        ELSE Emit(Finding(ReadProp, v, [cause |-> cause,
+        ELSE Emit(Finding(IF Rec[l].kind = "bread" /\ cause \notin {"none", ""} THEN "C11" ELSE ReadProp, v, [cause |-> cause,
                                      causes |-> IF Rec[l].kind = "idx" /\ IsRows THEN idxCauses ELSE <<>>,
                                      got |-> NRows, reference |-> Len(E),
                                      refrows |-> IF Len(E) <= 6 THEN E ELSE SubSeq(E, 1, 6),
@@ -415,8 +416,33 @@ TRead ==
                                      err |-> Res.err, query |-> Rec[l].query]))
   /\ l' = l + 1 /\ UNCHANGED <<ovf, gr, ixpre, firstlab>>
 
+(***************************************************************************)
+(* C30: a session whose database was produced by the bulk loader (or by    *)
+(* transactions from the same input).  The dump must equal the graph the   *)
+(* input describes, up to node identity.                                   *)
+(***************************************************************************)
+BulkGraph(b) ==
+  LET ns == b.nodes es == b.edges
+      idOf(ext) == (CHOOSE i \in 1..Len(ns) : ns[i].ext = ext) - 1
+  IN [nodes |-> [i \in 1..Len(ns) |-> [id |-> i - 1, labels |-> <<ns[i].label>>, props |-> ns[i].props]],
+      rels |-> [j \in 1..Len(es) |-> [src |-> idOf(es[j].src), type |-> es[j].type, tcp |-> es[j].tcp,
+                                       dst |-> idOf(es[j].dst), props |-> es[j].props, dead |-> FALSE]],
+      inn |-> <<>>]
+BulkCheck ==
+  IF "bulk" \notin DOMAIN Rec[l] THEN TRUE
+  ELSE LET b == Rec[l].bulk IN
+       IF b.res # "ok" THEN
+         Emit([prop |-> "C30", at |-> l, cid |-> 0, sid |-> Rec[l].sid, case |-> "bulk", kind |-> "load-failed",
+               detail |-> [mode |-> b.mode, res |-> b.res]])
+       ELSE LET d == GraphDiff(BulkGraph(b.echo), Rec[l].graph)
+                w == DumpIllFormed(Rec[l].graph) IN
+            IF d = "" /\ w = "" THEN TRUE
+            ELSE Emit([prop |-> "C30", at |-> l, cid |-> 0, sid |-> Rec[l].sid, case |-> "bulk",
+                       kind |-> IF d # "" THEN d ELSE w, detail |-> [mode |-> b.mode]])
+
 TSession ==
   /\ l <= Len(Rec) /\ Rec[l].ev = "session"
+  /\ BulkCheck
   /\ gr' = IF "graph" \in DOMAIN Rec[l] THEN Rec[l].graph ELSE NoGraph
   /\ l' = l + 1 /\ ovf' = "" /\ ixpre' = {} /\ firstlab' = {}
 (* write / admin cases: the graph the following reads are judged on is the one dumped after them *)
@@ -548,7 +574,7 @@ TTxn ==
 
 TOtherCase ==
   /\ l <= Len(Rec) /\ Rec[l].ev = "case"
-  /\ Rec[l].kind \notin {"truth3", "cmp", "arith", "order", "agg", "err", "part", "read", "idx", "write", "admin", "lim", "upd", "txn"}
+  /\ Rec[l].kind \notin {"truth3", "cmp", "arith", "order", "agg", "err", "part", "read", "idx", "write", "admin", "lim", "upd", "txn", "bread"}
   /\ l' = l + 1 /\ UNCHANGED <<ovf, gr, ixpre, firstlab>>
 
 Next == TSession \/ TRead \/ TWrite \/ TLim \/ TUpd \/ TTxn \/ TTruth3 \/ TCmp \/ TArith \/ TOrder \/ TAgg \/ TErr \/ TPart \/ TOtherCase
